@@ -296,12 +296,21 @@ struct C15 : Scenario {
 			p.seti("sched_seed", (int64_t) rng.below(1u << 30));
 			p.seti("bias", (int64_t) rng.below(3));
 		}
+		// a whole second archive behind the end marker (drawn last: the plans are otherwise the ones they were): the end is
+		// final for every reader, whatever it did with the members before - extracted links that were held back included
+		if (rng.chance(1, 6)) p.seti("trailer", 1);
 		return p;
 	}
 	RunResult execute(const Plan &p, Plan *) override {
 		begin_run(p);
 		RunResult res;
 		BuiltArchive a = build_archive(p);
+		if (p.geti("trailer", 0)) {
+			if (a.bytes.empty() || a.bytes.back() != 0) a.bytes.push_back(0);
+			Bytes again = a.bytes;
+			append(a.bytes, again);
+			count("kind.trailer_after_end_marker");
+		}
 		uint64_t budget = 8192 + 16 * a.bytes.size();
 		// the reference of a reader is what the archive yields up to the point where that reader's input ends or fails
 		auto cut_of = [&](const Task &t) -> int64_t {
